@@ -16,7 +16,7 @@ meta = {
     "files": seeder.get("files", []),
     "seeder_ran": seeder.get("ran", []),
     "confirmed_by_coordinator": {
-        "how": "tools/confirm_seed.sh in a scratch worktree: go build ./... with patch; demo test fails with patch and passes after git apply -R; existing tests of the touched packages plus interpreter/sema/runtime/bbq/stdlib/encoding/parser/ast/common/values pass with the patch",
+        "how": "tools/confirm_seed.sh in a scratch worktree: go build ./... with patch; demo test fails with patch and passes after git apply -R; existing tests of the touched packages plus interpreter/sema/runtime/bbq/stdlib (round 1 additionally encoding/parser/ast/common/values) pass with the patch",
         "result": log[-1] if log else "",
     },
     "check_verdict": verdict,
